@@ -22,6 +22,11 @@ type C11Case struct {
 	First  []byte `json:"first"`  // bytes of the first packet
 	Origin string `json:"origin"` // how it was built
 	Then   string `json:"then"`   // "packets" (effect-bearing packets in the same write) | "close" | "silence"
+	// Victim: a legitimate client with the same client identifier exists
+	// before the first packet arrives: "stored" (persistent session with a
+	// subscription, disconnected) or "live" (connected, with a will). Only
+	// with the user/password authenticator.
+	Victim string `json:"victim,omitempty"`
 }
 
 // verdict of the reference side for a first packet.
@@ -179,6 +184,39 @@ func runC11(c C11Case) c11result {
 		res.Fail = "witness subscribe: " + err.Error()
 		return res
 	}
+	var vic *fix.Conn
+	vicConnect := func() (*codec.Packet, error) {
+		vic = b.Dial("victim")
+		cp := wire.ConnectPacket(cls.id, false, 120)
+		cp.ConnectFlags |= 128 | 64 | 4 | 8
+		cp.Username, cp.Password = []byte("user"), []byte("pass")
+		cp.WillTopic, cp.WillMessage = []byte("vic/will"), []byte("victim-own-will")
+		return vic.Connect(cp)
+	}
+	victim := c.Victim
+	if victim != "" && (c.Auth != fix.AuthUserPass || cls.kind != "refuse" || !plainID(cls.id) || c.Then != "packets") {
+		victim = ""
+	}
+	if victim != "" {
+		if ack, err := vicConnect(); err != nil || ack.ReturnCode != 0 {
+			res.Fail = fmt.Sprintf("victim could not connect: %v %v", ack, err)
+			return res
+		}
+		vic.Send(&codec.Packet{Type: codec.SUBSCRIBE, PacketID: 1, Topics: [][]byte{[]byte("vic/#")}, QoSs: []byte{1}})
+		if _, err := vic.Barrier(); err != nil {
+			res.Fail = "victim barrier: " + err.Error()
+			return res
+		}
+		if victim == "stored" {
+			vic.Send(&codec.Packet{Type: codec.DISCONNECT})
+			vic.WaitTeardown(wire.DefaultWait)
+			vic.Close()
+		}
+		res.Classes = append(res.Classes, "victim:"+victim)
+		wmu.Lock()
+		seen = nil
+		wmu.Unlock()
+	}
 	at := b.Dial("attacker")
 	at.AutoAck = true
 	out := append([]byte(nil), c.First...)
@@ -244,6 +282,21 @@ func runC11(c C11Case) c11result {
 			}
 		}
 	}
+	aligned := false
+	if _, remlen, hdr, herr := codec.Header(c.First); herr == nil && hdr+remlen == len(c.First) {
+		aligned = true
+	}
+	if accepted && !aligned {
+		// the declared length of the first packet differs from the bytes sent: what follows is
+		// misaligned garbage for the broker; nothing is asserted about how it deals with it here (C05)
+		res.Classes = append(res.Classes, "accepted-but-following-stream-misaligned")
+		at.Close()
+		at.WaitTeardown(wire.DefaultWait)
+		for _, x := range b.Escaped() {
+			res.Fail = x
+		}
+		return res
+	}
 	if accepted && c.Then != "close" {
 		// the connection works
 		if _, err := at.Barrier(); err != nil {
@@ -289,6 +342,54 @@ func runC11(c C11Case) c11result {
 		if !accepted {
 			res.Classes = append(res.Classes, "refused-with-effect-bearing-packets")
 		}
+	}
+	// a refused CONNECT must not have touched the state of a legitimate client with the same identifier
+	if victim != "" && !accepted {
+		if victim == "stored" {
+			ack, err := vicConnect()
+			if err != nil || ack.ReturnCode != 0 {
+				res.Fail = fmt.Sprintf("victim could not reconnect after the refused CONNECT: %v %v", ack, err)
+				return res
+			}
+			if !ack.SessionPresent {
+				res.Fail = fmt.Sprintf("a refused CONNECT (%s; CONNACK %v) destroyed the stored session of the legitimate client %q: SessionPresent=0 on its next CleanSession=0 connect", c.Origin, connack, cls.id)
+				return res
+			}
+		}
+		if _, err := vic.Barrier(); err != nil {
+			res.Fail = fmt.Sprintf("the legitimate client %q with the same identifier was disturbed by a refused CONNECT (%s): %v", cls.id, c.Origin, err)
+			return res
+		}
+		pm := message.NewPublishMessage()
+		pm.SetTopic([]byte("vic/x"))
+		pm.SetPayload([]byte("for-victim"))
+		pm.SetQoS(0)
+		b.Srv.Publish(pm)
+		rx, err := vic.Barrier()
+		n := 0
+		for _, r := range rx {
+			if r.P.Type == codec.PUBLISH && string(r.P.Topic) == "vic/x" {
+				n++
+			}
+		}
+		if err != nil || n != 1 {
+			res.Fail = fmt.Sprintf("after a refused CONNECT (%s) the legitimate client %q received %d copies of a publish matching its subscription (err %v)", c.Origin, cls.id, n, err)
+			return res
+		}
+		// its will is still its own
+		wmu.Lock()
+		seen = nil
+		wmu.Unlock()
+		vic.Close()
+		vic.WaitTeardown(wire.DefaultWait)
+		wmu.Lock()
+		got := append([]string(nil), seen...)
+		wmu.Unlock()
+		if len(got) != 1 || got[0] != fmt.Sprintf("%s retain=%v %q", "vic/will", false, "victim-own-will") {
+			res.Fail = fmt.Sprintf("after a refused CONNECT (%s) the abrupt end of the legitimate client %q published %v instead of its own will", c.Origin, cls.id, got)
+			return res
+		}
+		return res
 	}
 	// a refused client identifier must not have left session state behind
 	if !accepted && cls.id != "" && c.Auth != "mockFailure" && len(cls.id) <= 23 && codec.Policy(&codec.Packet{ProtoName: "MQTT", Level: 4, ClientID: []byte(cls.id)}) == 0 {
@@ -363,6 +464,18 @@ func enumC11(emit func(C11Case)) {
 						}
 					}
 				}
+			}
+		}
+	}
+	// a legitimate client with the same identifier exists; the intruder is refused by the authenticator
+	for _, vict := range []string{"stored", "live"} {
+		for _, cred := range []struct {
+			f          byte
+			user, pass string
+		}{{128 | 64, "user", "wrong"}, {0, "", ""}, {128, "user", ""}} {
+			for _, extra := range []byte{0, 2, 4, 2 | 4, 4 | 32 | 16} {
+				cs := connectSpec{name: "MQTT", level: 4, flags: cred.f | extra, id: "abc123", user: cred.user, pass: cred.pass}
+				emit(C11Case{Auth: fix.AuthUserPass, First: codec.Encode(cs.packet()), Origin: fmt.Sprintf("CONNECT MQTT/4 flags=%08b id=abc123 user=%q pass=%q while a legitimate client abc123 exists (%s)", cs.flags, cred.user, cred.pass, vict), Then: "packets", Victim: vict})
 			}
 		}
 	}
@@ -516,6 +629,9 @@ func TestC11Random(t *testing.T) {
 			}
 		}
 		c := C11Case{Auth: rapid.SampledFrom(c11Auths).Draw(t, "auth"), First: enc, Origin: origin, Then: "packets"}
+		if c.Auth == fix.AuthUserPass && rapid.IntRange(0, 2).Draw(t, "victim") == 0 {
+			c.Victim = rapid.SampledFrom([]string{"stored", "live"}).Draw(t, "victimkind")
+		}
 		// a corrupted remaining length can make the broker wait for bytes that never come;
 		// close after the write in that case so the case stays cheap
 		if _, remlen, hdr, err := codec.Header(enc); err != nil || hdr+remlen > len(enc)+len(effectPackets()) {
@@ -533,4 +649,17 @@ func TestC11Random(t *testing.T) {
 			failC11(t, rec, c, r.Fail)
 		}
 	})
+}
+
+// plainID: 1-23 alphanumerics, the identifiers every server must accept.
+func plainID(id string) bool {
+	if len(id) == 0 || len(id) > 23 {
+		return false
+	}
+	for _, ch := range []byte(id) {
+		if !(ch >= '0' && ch <= '9' || ch >= 'a' && ch <= 'z' || ch >= 'A' && ch <= 'Z') {
+			return false
+		}
+	}
+	return true
 }
